@@ -44,10 +44,18 @@ type history struct {
 	HeaderAt int // call Header() before the i-th Scan (-1 = never); PBF only
 	Stop     int
 	Post     string // letters S (Scan), E (Err), C (Close), H (Header)
+	// Damaged: the input is corrupt after a valid prefix; the consumer scans
+	// until Scan returns false (an error is recorded), then stops, and Err must
+	// keep reporting that earlier error.
+	Damaged bool
 }
 
 func (h history) name() string {
-	return fmt.Sprintf("%s procs=%d scans=%d headerAt=%d stop=%s post=%s", h.Format, h.Procs, h.K, h.HeaderAt, stopNames[h.Stop], h.Post)
+	d := ""
+	if h.Damaged {
+		d = " damaged-input"
+	}
+	return fmt.Sprintf("%s%s procs=%d scans=%d headerAt=%d stop=%s post=%s", h.Format, d, h.Procs, h.K, h.HeaderAt, stopNames[h.Stop], h.Post)
 }
 
 const pbfBlocks = 6
@@ -57,7 +65,31 @@ var (
 	pbfEnc  = pbfFile.Encode()
 	pbfWant = pbfFile.Expected()
 	xmlDoc  = buildXML()
+
+	// damaged inputs: two valid data blocks, then a block whose blob is not a
+	// protobuf message, then one more valid block / three nodes, then a
+	// mismatched end tag
+	pbfDamaged, pbfDamagedWant = buildDamagedPBF()
+	xmlDamaged                 = []byte(strings.Replace(string(xmlDoc), `<node id="4"`, `<node id="4"></way><node id="44"`, 1))
 )
+
+func buildDamagedPBF() ([]byte, []osm.Object) {
+	var data []byte
+	var want []osm.Object
+	data = append(data, pbfgen.EncodeFileBlock("OSMHeader", pbfgen.EncodeBlob(pbfgen.StdHeader().Bytes(), pbfgen.BlobOpts{}), pbfgen.FileBlockOpts{})...)
+	for i := range pbfFile.Blocks {
+		b := &pbfFile.Blocks[i]
+		o := pbfgen.BlobOpts{}
+		if i == 2 {
+			o.Garbage = true
+		}
+		data = append(data, pbfgen.EncodeFileBlock("OSMData", pbfgen.EncodeBlob(b.PrimitiveBlock(), o), pbfgen.FileBlockOpts{})...)
+		if i < 2 {
+			want = append(want, b.Expected()...)
+		}
+	}
+	return data, want
+}
 
 func buildXML() []byte {
 	var b strings.Builder
@@ -89,6 +121,13 @@ func scenario(h history, bound int) vexplore.Scenario {
 	if h.Format == "xml" {
 		total = 6
 	}
+	if h.Damaged {
+		fam += " damaged-input"
+		total = len(pbfDamagedWant)
+		if h.Format == "xml" {
+			total = 3
+		}
+	}
 	return vexplore.Scenario{Name: h.name(), Family: fam, Bound: bound, RacesAreFindings: true, MaxSteps: 200000,
 		New: func() (func(), func(*vsched.Outcome) ([]vexplore.Finding, string, bool)) {
 			var (
@@ -111,10 +150,16 @@ func scenario(h history, bound int) vexplore.Scenario {
 				var ps *osmpbf.Scanner
 				if h.Format == "pbf" {
 					rd = &pbfscen.Reader{Data: pbfEnc.Data, BlockOnly: true}
+					if h.Damaged {
+						rd.Data = pbfDamaged
+					}
 					ps = osmpbf.New(ctx, rd, h.Procs)
 					s = ps
 				} else {
 					rd = &pbfscen.Reader{Data: xmlDoc, MaxChunk: 48}
+					if h.Damaged {
+						rd.Data = xmlDamaged
+					}
 					s = osmxml.New(ctx, rd)
 				}
 				vsched.OnCancel = func() {
@@ -128,7 +173,7 @@ func scenario(h history, bound int) vexplore.Scenario {
 				}
 				phase = "scanning"
 				limit := h.K
-				if h.Stop == stopCancelOther {
+				if h.Stop == stopCancelOther || h.Damaged {
 					limit = 1 << 20
 				}
 				for i := 0; i < limit; i++ {
@@ -208,6 +253,35 @@ func scenario(h history, bound int) vexplore.Scenario {
 				if o.Kind != "ok" {
 					add(o.Kind, fmt.Sprintf("execution ended in %s during phase %q: %s", o.Kind, phase, o.Detail))
 					return fs, tag, nonvac
+				}
+				if h.Damaged {
+					// reference: the valid prefix, then an error that stays the answer of Err
+					if len(got) != total {
+						add("damaged/prefix", fmt.Sprintf("%d objects delivered before the error, want %d", len(got), total))
+					}
+					if !ended || errBeforeStop == nil || errBeforeStop == osm.ErrScannerClosed || errBeforeStop == context.Canceled {
+						add("damaged/no-error", fmt.Sprintf("Scan ended=%v with Err()=%v on damaged input", ended, errBeforeStop))
+						return fs, tag, true
+					}
+					for i, p := range post {
+						switch p.op {
+						case 'S':
+							if p.b {
+								add("scan-true-after-stop", fmt.Sprintf("post call %d: Scan returned true after an error and %s", i, stopNames[h.Stop]))
+							}
+						case 'E':
+							if p.err == nil || p.err.Error() != errBeforeStop.Error() {
+								add("earlier-error-lost", fmt.Sprintf("post call %d: Err()=%v after %s, the error recorded earlier was %v", i, p.err, stopNames[h.Stop], errBeforeStop))
+							}
+						}
+					}
+					if errAtEnd == nil || errAtEnd.Error() != errBeforeStop.Error() {
+						add("earlier-error-lost", fmt.Sprintf("Err()=%v at the end, the error recorded earlier was %v", errAtEnd, errBeforeStop))
+					}
+					if !finalCloseReturned {
+						add("close-did-not-return", "final Close did not return")
+					}
+					return fs, tag, true
 				}
 				for i, d := range atReturn {
 					if d != "" {
@@ -323,7 +397,7 @@ func postSeqs(maxLen int, alphabet string) []string {
 func main() {
 	kit.Main("C07", "model_checking", func(r *kit.Run) {
 		r.Rule("call histories (Header|Scan)^k ; stop in {Close, cancel, cancel from a second thread, cancel then Close, Close then cancel} ; post calls over {Scan, Err, Close, Header}; " +
-			"family S: fixed post sequence SECSEH, k in a grid, every schedule with <= D deviations, both priority configurations; family H: every post sequence of length <= 2 (quick) / 3 (thorough) and every k, default schedules (D=0); " +
+			"family E: damaged input (error recorded, then stop: Err keeps the earlier error), D=1; family S: fixed post sequence SECSEH, k in a grid, every schedule with <= D deviations, both priority configurations; family H: every post sequence of length <= 2 (quick) / 3 (thorough) and every k, default schedules (D=0); " +
 			"PBF input: header + 6 data blocks, XML input: 6 nodes read in 48-byte chunks; non-vacuous = the stop was issued with >= 4 file blocks unread (PBF) or before the end (XML); " +
 			"distinct_nontrivial = distinct complete operation sequences among non-vacuous executions")
 		r.Assume("promptness is a block count: the reader may begin at most 2 file blocks after the cancellation took effect (measured atomically at the cancelling operation); wall-clock latency is not measured")
@@ -350,7 +424,7 @@ func main() {
 					if k >= 3 {
 						hAt = 1
 					}
-					scs = append(scs, scenario(history{"pbf", pd.p, k, hAt, stop, "SECSEH"}, pd.d))
+					scs = append(scs, scenario(history{Format: "pbf", Procs: pd.p, K: k, HeaderAt: hAt, Stop: stop, Post: "SECSEH"}, pd.d))
 				}
 			}
 		}
@@ -360,8 +434,23 @@ func main() {
 				kk = []int{0}
 			}
 			for _, k := range kk {
-				scs = append(scs, scenario(history{"xml", 1, k, -1, stop, "SECSE"}, 3))
+				scs = append(scs, scenario(history{Format: "xml", Procs: 1, K: k, HeaderAt: -1, Stop: stop, Post: "SECSE"}, 3))
 			}
+		}
+		// family E: an error recorded before the stop stays the answer of Err
+		for _, p := range []int{1, 2} {
+			for stop := 0; stop < 5; stop++ {
+				if stop == stopCancelOther {
+					continue
+				}
+				scs = append(scs, scenario(history{Format: "pbf", Procs: p, HeaderAt: -1, Stop: stop, Post: "SECSE", Damaged: true}, 1))
+			}
+		}
+		for stop := 0; stop < 5; stop++ {
+			if stop == stopCancelOther {
+				continue
+			}
+			scs = append(scs, scenario(history{Format: "xml", Procs: 1, HeaderAt: -1, Stop: stop, Post: "SECSE", Damaged: true}, 1))
 		}
 		// family H: call histories under the default schedules
 		postLen, hAts := 2, []int{-1}
@@ -377,7 +466,7 @@ func main() {
 					}
 					for _, hAt := range hAts {
 						for _, ps := range posts {
-							scs = append(scs, scenario(history{"pbf", p, k, hAt, stop, ps}, 0))
+							scs = append(scs, scenario(history{Format: "pbf", Procs: p, K: k, HeaderAt: hAt, Stop: stop, Post: ps}, 0))
 						}
 					}
 				}
@@ -389,7 +478,7 @@ func main() {
 					continue
 				}
 				for _, ps := range postSeqs(postLen, "SEC") {
-					scs = append(scs, scenario(history{"xml", 1, k, -1, stop, ps}, 0))
+					scs = append(scs, scenario(history{Format: "xml", Procs: 1, K: k, HeaderAt: -1, Stop: stop, Post: ps}, 0))
 				}
 			}
 		}
